@@ -28,6 +28,8 @@ WILD = os.path.join(TARGET, "wild", "debug", "wild")
 LINKER_DIFF = os.path.join(TARGET, "wild", "debug", "linker-diff")
 LD = "/usr/bin/ld.bfd"
 LLD = "/usr/bin/ld.lld"
+# Panics of the tested binary are judged by status/stderr; symbolised backtraces only cost time.
+os.environ["RUST_BACKTRACE"] = "0"
 
 
 class Violation(Exception):
@@ -320,16 +322,20 @@ def evaluate(check, case, ctx, stats, known, counting=True):
     finally:
         ctx.cleanup()
     if counting:
-        stats.evaluations += 1
+        # A case may stand for many executions (e.g. a whole fault matrix): it can report its own
+        # evaluation count and a list of distinct non-trivial keys.
+        stats.evaluations += int(info.get("evaluations", 1))
         if info.get("nontrivial"):
             stats.keys.add(str(info.get("key", case_hash(case))))
+        for k in info.get("keys", ()):
+            stats.keys.add(str(k))
         for c in info.get("classes", []):
             stats.classes[c] += 1
         for k, v in info.get("counters", {}).items():
             stats.extra[k] = stats.extra.get(k, 0) + v
         if len(stats.samples) < 2:
             stats.samples.append({"case": _abbrev(case), "info": {k: v for k, v in info.items()
-                                                                  if k not in ("counters",)}})
+                                                                  if k not in ("counters", "keys", "classes")}})
     return info
 
 
